@@ -25,7 +25,7 @@ class RequestFromJson:
         return (
             same(result._method, member(json_data, 'method'))
             and (same(result._id, i) if not is_absent(i) else result._id is None)
-            and (same(result._params, p) if not is_absent(p) else (isinstance(result._params, list) and len(result._params) == 0))
+            and (same(result._params, p) if not is_absent(p) else (isinstance(result._params, list) and class_is(result._params, list) and len(result._params) == 0))
         )
 
 
@@ -61,4 +61,79 @@ class ResponseFromJson:
             and same(result._error.message, member(e, 'message'))
             and (same(result._error.data, d) if not is_absent(d) else result._error.data is UNSET)
             and class_is(result._error, JsonRpcErrorMeta.__errors_mapping__.get(member(e, 'code'), error_cls))
+        )
+
+
+# ------------------------------------------------------------------------------------------------ wire forms (C05)
+def params_ok(p):
+    """what a request can carry as params: nothing, an array (list / tuple) or an object"""
+    return p is None or isinstance(p, (list, tuple, dict))
+
+
+@contract('pjrpc.common.v20:Request.to_json', props=['C05', 'C07'])
+class RequestToJson:
+    types = {'self': '=pjrpc.common.v20:Request'}
+    raises_only = ()
+    result_type = '=dict'
+
+    def requires_inv(self):
+        return params_ok(self._params)
+
+    def ensures_wire(self, result):
+        # C05: jsonrpc always "2.0"; an id member iff not a notification; a params member iff it has parameters;
+        # nothing else
+        return (
+            member(result, 'jsonrpc') == '2.0' and same(member(result, 'method'), self._method)
+            and (same(member(result, 'id'), self._id) if self._id is not None else is_absent(member(result, 'id')))
+            and (same(member(result, 'params'), self._params) if self._params else is_absent(member(result, 'params')))
+            and len(result) == 2 + (1 if self._id is not None else 0) + (1 if self._params else 0)
+        )
+
+
+@contract('pjrpc.common.exceptions:JsonRpcError.to_json', props=['C05', 'C03', 'C01'])
+class JsonRpcErrorToJson:
+    types = {'self': 'pjrpc.common.exceptions:JsonRpcError'}
+    raises_only = ()
+    result_type = '=dict'
+
+    def ensures_wire(self, result):
+        # C03 / C05: exactly code and message; data iff set (absent stays absent, null stays null)
+        return (
+            same(member(result, 'code'), self.code) and same(member(result, 'message'), self.message)
+            and (same(member(result, 'data'), self.data) if self.data is not UNSET else is_absent(member(result, 'data')))
+            and len(result) == 2 + (0 if self.data is UNSET else 1)
+        )
+
+
+@contract('pjrpc.common.v20:Response.to_json', props=['C05', 'C01'])
+class ResponseToJson:
+    types = {'self': '=pjrpc.common.v20:Response'}
+    raises_only = ()
+    result_type = '=dict'
+
+    def requires_inv(self):
+        # class invariant established by the constructor: exactly one of result / error
+        return ((self._result is UNSET) != (self._error is UNSET)) and (
+            self._error is UNSET or isinstance(self._error, JsonRpcError))
+
+    def ensures_wire(self, result):
+        e = member(result, 'error')
+        return (
+            member(result, 'jsonrpc') == '2.0' and same(member(result, 'id'), self._id)
+            and (same(member(result, 'result'), self._result) if self._result is not UNSET
+                 else is_absent(member(result, 'result')))
+            and (is_absent(e) == (self._error is UNSET))
+            and len(result) == 3
+        )
+
+    def ensures_error_wire(self, result):
+        if self._error is UNSET:
+            return True
+        e = member(result, 'error')
+        d = member(e, 'data')
+        return (
+            isinstance(e, dict)
+            and same(member(e, 'code'), self._error.code) and same(member(e, 'message'), self._error.message)
+            and (same(d, self._error.data) if self._error.data is not UNSET else is_absent(d))
+            and len(e) == 2 + (0 if self._error.data is UNSET else 1)
         )
